@@ -154,7 +154,18 @@ for _pid in ("C01", "C02", "C03", "C13", "C16", "C17"):
             PROPS[_pid].setdefault("replay", {}).setdefault(_f, HTTP)
             PROPS[_pid].setdefault("standins", {}).setdefault(_f, {"driver": HTTP, "bound": _HTTP_BOUND})
 
+V = "xandikos.store.vdir.VdirStore."
+PROPS["C01"]["functions"] += [V + "import_one", V + "delete_one", V + "_get_etag"]
+PROPS["C02"]["functions"] += [V + "_get_etag", V + "import_one", V + "_get_raw"]
+PROPS["C03"]["functions"] += [V + "import_one", V + "delete_one"]
+PROPS["C04"]["functions"] += [V + "import_one"]
 STORE_EXPLORE = "store_explore.py"
+_VDIR_REST = {V + "_scan_uids": {"driver": STORE_EXPLORE, "request": {"backends": ["vdir"]},
+                                 "bound": "vdir only: histories of <= 5 store operations (quick: 250 seeded samples; thorough: all of "
+                                          "length <= 3) over 2 names x 2 uids x {no, current, stale etag}, deletes, restarts. Stands in "
+                                          "for VdirStore._scan_uids / _check_duplicate / iter_with_etag, which are not under contract."}}
+for _pid in ("C01", "C03", "C06"):
+    PROPS[_pid]["bounded_always"] = dict(_VDIR_REST)
 _STORE_BOUND = ("histories of <= 5 store operations (quick: 250 seeded samples per back end; thorough: all of length <= 3) over "
                 "2 names x 2 uids x {no, current, stale etag}, deletes, restarts, on tree-git, bare-git and vdir")
 for _pid, _sp in PROPS.items():
